@@ -57,6 +57,14 @@ def purchase_stats(sess):
                 c["purchases_with_fee"] += 1
             if any(m["kind"] in ("bank", "cw20_transfer") for m in st["msgs"]):
                 c["purchases_with_royalty"] += 1
+    for st in sess.steps:
+        if st["op"].get("reentry"):
+            c["operations_with_reentry_program"] += 1
+            if st["market_calls"] > 1:
+                c["reentrant_transactions"] += 1                       # the hostile contract was handed a transfer and called back
+                c["nested_marketplace_calls"] += st["market_calls"] - 1
+                if st["outcome"] != "ok":
+                    c["reentrant_transactions_reverted"] += 1
     c["max_records"] = max([len(st["post"]["listings"]) + len(st["post"]["buckets"]) for st in sess.steps] or [0])
     return c
 
@@ -81,9 +89,17 @@ def run_job(job):
             qsteps[len(sess.steps) - 1] = q
         else:
             rng = random.Random(job["seed"])
-            sess = world.Session(world.default_cfg(t0=world.T0 + rng.randrange(0, 10 ** 9)), h, name=job["name"])
+            flags = set(job.get("flags", ()))
+            sess = world.Session(world.default_cfg(t0=world.T0 + rng.randrange(0, 10 ** 9)), h, name=job["name"], flags=flags)
             ctx = monitors.Ctx(sess)
-            g = gen.Gen(sess, rng, probes_per_state=job.get("probes", 0))
+            if "reentrant" in flags:
+                # the hostile contract gets coins and honest tokens of its own to play with
+                hs = sess.by_kind("hostile")
+                for hc in hs:
+                    sess.do({"t": "bank_send", "user": "usr0", "to": hc, "coins": [["ujunox", 5000], ["uatom", 300], ["uusdcx", 900]]}, "valid")
+                    for t in sess.by_kind("cw20"):
+                        sess.do({"t": "cw20_transfer", "user": "usr1", "token": t, "to": hc, "amount": 400}, "valid")
+            g = gen.Gen(sess, rng, probes_per_state=job.get("probes", 0), reentry_prob=0.5 if "reentrant" in flags else 0.0)
             q_every = job.get("q_every", 0)
 
             def on_state(done):
